@@ -1,8 +1,8 @@
 (* GenEq/Fb_try_parse.v — tie T1: the definition regenerated from /repo (Gen/FbGen.v, untracked, rebuilt on every run by rs2v + vlib/translate.py)
    equals the model definition the theorems are about. *)
-From FB Require Import Sem.Base Model.Fb GenEq.Tac.
+From FB Require Import Sem.Base Model.Fb Facets.Fb GenEq.Tac.
 From FB Require Gen.FbGen.
 Open Scope Z_scope.
 
-Lemma gen_eq : forall R (f : M fb (option R)) s, FbGen.try_parse f s = Fb.try_parse f s.
+Lemma gen_eq : forall SIZE chk R (f : M fb (option R)) s, Inv SIZE s -> FbGen.try_parse SIZE chk f s = Fb.try_parse f s.
 Proof. gen_eq. Qed.
